@@ -287,9 +287,45 @@ func corpus(tier string) []Case {
 	return out
 }
 
+// e2eSlice: 18 records sent through startSocket's publishers in every tier: channels with and without a prefix
+// subscription x (0 samples, 0 coefficients) / (0 samples, 2 coefficients) / (3 samples, 0 coefficients) /
+// (2 samples, 3 coefficients).
+func e2eSlice() []Case {
+	one := math.Float64bits
+	var out []Case
+	k := 0
+	for _, ch := range []int64{0, 1, 255, 256, 65535, 3} {
+		for j := 0; j < 3; j++ {
+			c := Case{Chan: ch, Signed: k%2 == 0, Period: math.Float32bits(1e-6), Vpa: math.Float32bits(1.0 / 16384),
+				Time: 1500000000123456789 + int64(k), Frame: 1<<33 + int64(k), E2E: true,
+				Vals: []uint64{one(1000.5), one(2000.25), one(300.125), one(150.0625), one(7.5)}}
+			switch k % 4 {
+			case 0: // both second frames empty
+			case 1:
+				c.Coefs = []uint64{one(1.5), one(-2)}
+			case 2:
+				c.Data = []int{1, 0xfffe, 0x0102}
+			default:
+				c.Data = []int{7, 0x8000}
+				c.Coefs = []uint64{one(0.25), one(3), one(-1e300)}
+			}
+			c.Pre = int64(len(c.Data) / 2)
+			if c.Data == nil {
+				c.Data = []int{}
+			}
+			if c.Coefs == nil {
+				c.Coefs = []uint64{}
+			}
+			out = append(out, c)
+			k++
+		}
+	}
+	return out
+}
+
 func gen(seed uint64, tier string) []interface{} {
 	r := lib.NewRng(seed)
-	n := 400
+	n := 320
 	if tier == "thorough" {
 		n = 6000
 	}
@@ -319,6 +355,9 @@ func gen(seed uint64, tier string) []interface{} {
 			recs = append(recs, c)
 		}
 	}
+	// both tiers: a small slice through the real PUB/SUB pair - what is ON THE WIRE must be a two-frame message
+	// also when the second frame is empty (record with 0 samples, summary with 0 coefficients)
+	recs = append(recs, e2eSlice()...)
 	// group consecutive records into batches of 2..4 (now and then 1); a long record is always followed by
 	// at least one more record in its batch
 	var out []interface{}
@@ -385,20 +424,19 @@ func newSub(port int, prefixes []string) (*zmq4.Socket, error) {
 	return sock, nil
 }
 
-func sameFrames(a, b [][]byte) bool {
-	if len(a) != len(b) {
-		return false
-	}
-	for i := range a {
-		if string(a[i]) != string(b[i]) {
-			return false
-		}
-	}
-	return true
+func probe(k int) dastard.VerifRecord {
+	return dastard.VerifRecord{Chan: 4660, Frame: int64(-1000 - k), TimeNs: 77, Pre: 0, Data: []uint16{uint16(k)},
+		ModelCoefs: []float64{float64(k) + 0.5}}
 }
 
-func probe(k int) dastard.VerifRecord {
-	return dastard.VerifRecord{Chan: 4660, Frame: int64(-1000 - k), TimeNs: 77, Pre: 0, Data: []uint16{uint16(k)}}
+// isProbe recognises a received probe by its header frame OR by its last frame (both carry the probe number), so
+// that the handshake still synchronises when what arrives differs from what the encoder returned in the other
+// respect (a frame dropped or altered on the way is then judged on the test records, not hidden by a fall-back).
+func isProbe(m, want [][]byte) bool {
+	if len(m) == 0 || len(want) != 2 {
+		return false
+	}
+	return string(m[0]) == string(want[0]) || (len(m[len(m)-1]) > 0 && string(m[len(m)-1]) == string(want[1]))
 }
 
 func direct(v dastard.VerifRecord, which int) [][]byte {
@@ -489,7 +527,7 @@ func getSession() *session {
 				dbg("drain of socket %d failed after %d messages: %v", i, n, err)
 				return nil
 			}
-			if sameFrames(m, want) {
+			if isProbe(m, want) {
 				break
 			}
 		}
